@@ -19,6 +19,18 @@ def gen(rng, tier):
         cmds = st["cmds"] + st["pre"] + [st["read"], "dump 0", "getall 0", "path 0"]
         obs = [False] * (len(st["cmds"]) + len(st["pre"])) + [True, True, True, True]
         out.append(Scenario(cmds, obs, tags=("mode%d" % st["mode"],)))
+    # many drop-ins in one directory, spread over two layers: every one of them is applied, in byte order, later ones
+    # override; a name present in both layers counts once (the main file exists: the known finding F14 is out of the way)
+    for count in ((70, 300) if tier == "quick" else (70, 300, 1100)):
+        cmds = [trees.fsdir(b"/usr/etc/big.conf.d"), trees.fsdir(b"/etc/big.conf.d"), trees.fsfile(b"/usr/etc/big.conf", b"common=main\nmain=1\n")]
+        for i in range(count):
+            nm = b"%04d-x.conf" % (i * 7 % count)
+            layer = b"/etc" if i % 3 == 0 else b"/usr/etc"
+            cmds.append(trees.fsfile(layer + b"/big.conf.d/" + nm, b"common=%d\nk%d=%d\n[S%d]\nj=%d\n" % (i, i, i, i % 40, i)))
+            if i % 10 == 0: cmds.append(trees.fsfile(b"/usr/etc/big.conf.d/" + nm, b"masked%d=1\n" % i))
+        k = len(cmds)
+        cmds += ["readdirs 0 x2f7573722f657463 x2f657463 %s x636f6e66 x3d x23" % enc(b"big"), "dump 0", "getall 0"]
+        out.append(Scenario(cmds, [False] * k + [True, True, True], tags=("many-dropins",)))
     # both names NULL must be refused, not crash
     out.append(Scenario(["newopts 0 " + enc(b"ROOT_PREFIX=/r"), "readconfig 0 - - - x636f6e66 x3d x23", "dump 0"], tags=("nullnames",)))
     out.append(Scenario(["readdirs 0 x2f75 x2f65 - x636f6e66 x3d x23", "dump 0"], tags=("nullnames",)))
@@ -29,3 +41,33 @@ def nontrivial(s, mlines):
 
 def matches_finding(f, s, det):
     return False
+
+
+# ---- the drop-in directory list of econf_set_conf_dirs is process-wide: set by the main thread, it is the list every
+# ---- worker thread's econf_readDirs uses (handles with CONFIG_DIRS of their own are not affected)
+def extra_check(scens, rng, tier, cov):
+    import C16
+    rounds = 10 if tier == "quick" else 150
+    cov["cross_thread_cases"] = rounds
+    for _ in range(rounds):
+        cd = rng.choice([[b".conf.d", b".d"], [b".d"], [b".d", b".conf.d"], [b".x", b".d"]])
+        pre = ["confdirs " + ",".join(enc(x) for x in cd)]
+        tset = []
+        for t in range(4):
+            if t < 3: st = laylib.setup(rng, mode=0, force_confdirs=cd, emit_confdirs=False)
+            else: st = laylib.setup(rng, mode=rng.choice([1, 2]))
+            cmds = st["cmds"] + st["pre"] + [st["read"], "dump 0"]
+            if st["hist"]: cmds.append(st["hist"])
+            tset.append(cmds)
+        det = C16._run_thread_case(pre, tset, what="drop-in directory list set by the main thread")
+        if det:
+            body = "# property C01\n# %s\n# 'pre' block: run by the main thread; one block per worker thread; replay: ./check C01 --replay <file>\n" % det.replace("\n", " ")[:1500]
+            body += "pre\n" + "\n".join(pre) + "\n"
+            for i, c in enumerate(tset): body += "thread %d\n" % i + "\n".join(c) + "\n"
+            return body, det
+    return None
+
+def replay(path):
+    import C16, sys, checklib
+    if "\nthread 0\n" not in open(path).read(): return checklib.replay("C01", path, sys.modules[__name__])
+    return C16.replay(path, pid="C01")
